@@ -4,7 +4,7 @@
 # /repo itself is not touched: usable while other runs are using /repo. Scratch lives under /tmp/seediso.
 set -u
 PATCH="$(realpath "$1")"; TIER="$2"; shift 2
-ISO=/tmp/seediso
+ISO=${ISO_DIR:-/tmp/seediso}
 mkdir -p $ISO
 if [ ! -d $ISO/repo ]; then git -C /repo worktree add -q --detach $ISO/repo HEAD || exit 2; fi
 git -C $ISO/repo checkout -q -- . ; git -C $ISO/repo clean -fdq -- src tests
